@@ -847,6 +847,11 @@ func ToEntry(n Node) (e *Entry) {
 				// The key of the map used is a synthesised value which is formed by
 				// concatenating the name of this node and the included submodule,
 				// separated by a ":".
+				if a.Module == nil {
+					// Not linked (yet): ToEntry was called before Process.
+					e.addError(fmt.Errorf("%s: included submodule %s is not resolved", Source(a), a.Name))
+					continue
+				}
 				srcToIncluded := a.Module.Name + ":" + n.NName()
 				includedToSrc := n.NName() + ":" + a.Module.Name
 
